@@ -173,7 +173,7 @@ fn writer_scenario(level: Option<u8>, data: &[u8], ops: &[Op], finish: bool, sin
                 cur += len;
                 r
             }
-            Op::Flush => w.flush(),
+            Op::Flush | Op::TryFinish => w.flush(),
             Op::Tell => Ok(()),
         };
         if let Err(e) = r {
@@ -224,6 +224,7 @@ impl C03 {
                 finish,
             } => {
                 let data = payload.bytes();
+                let ops = &c01::without_try_finish(ops);
                 // reference: the single-threaded writer fed the same history at the same level
                 let reference = match c01::run_history(*level, &data, ops, c01::End::Finish, WritePlan::plain()) {
                     Ok(r) => r.sink,
